@@ -45,6 +45,7 @@ func usesGlobal(fn *ssa.Function, name string) bool {
 
 func runC13(c *Ctx) {
 	w := c.W
+	curveTableRule(c, "z/x509/revocation/ocsp.signingParamsForPublicKey", "OCSP response signing")
 	fn := w.Fn(fnPRFC)
 	if fn == nil {
 		c.Undecided("R-CUT", fnPRFC, "anchor", "-", "not found")
